@@ -651,6 +651,7 @@ def fbOp (A : List Nat) (st : CSt) : P CSt := do
 
 def fbhist : P String := do
   let A ← P.nats; let deps ← P.natss
+  let tags ← P.natss; let depsOut ← P.natss; let aOut ← P.nats
   let sizes ← P.rep P.nat deps.length
   let nops ← P.nat
   let cfg := cfgPlain 0
@@ -661,6 +662,9 @@ def fbhist : P String := do
   let want := deps.map (fun d => AITB.Factored.spacePartial d A)
   let v0 : Verdict := {}
   let v0 := v0.diffIf (sizes != want) s!"factorSpacePartial model={want} impl={sizes}"
+  -- the object must keep statistics for exactly the dependency sets and action space it was given
+  let v0 := v0.failIf (tags != deps) s!"Factored::Bandit::Experience.ctor basis_tag_not_dependency impl={tags} want={deps}"
+  let v0 := v0.failIf (depsOut != deps || aOut != A) s!"Factored::Bandit::Experience.ctor reported_dependencies_or_action_space_differ impl={depsOut}/{aOut}"
   let st0 : CSt := { g := { S := [], A := A, parents := [] }, cfg := cfg, tabs := tabs, ts := 0, opIdx := 0, v := v0 }
   let rec loop : Nat → CSt → P CSt
     | 0, st => pure st
